@@ -2,6 +2,8 @@ package main
 
 import (
 	"fmt"
+	"go/token"
+	"sort"
 	"strings"
 
 	"golang.org/x/tools/go/ssa"
@@ -20,25 +22,53 @@ func checkC19(c *Ctx) (string, []string) {
 	}
 	M := "(*mmr.MMR)."
 	keep := func(n string) bool { return strings.Contains(n, "mmr.") || strings.Contains(n, "hash.") }
-	eff := func(n string) []string { return abbrAll(effectShapesOpt(fn[n], keep, true)) }
-	ret := func(n string) map[string][]string { return abbrMap(returnShapes(fn[n])) }
 
-	c.Rule("C19.append", "AppendOne skips only a nil item, works on a private copy of the current peaks (append(nil, m.Peaks...)), runs P from height 0 and installs/returns P's result; P appends at a new height, fills an empty slot through Replace, or clears the slot through Replace, merges (existing peak ⌢ carried item) and recurses one height up; Replace writes only into a fresh copy; concatenateAndHash returns a fresh hash cell of H(left ⌢ right)", 12)
-	c.checkCondSet("C19.append", M+"AppendOne", fn["MMR.AppendOne"], []string{"(nil == p1)", "false"})
-	pcall := M + "P(p0, append(nil, p0.Peaks), p1, 0)"
-	c.checkEffects("C19.append", M+"AppendOne", fn["MMR.AppendOne"], eff("MMR.AppendOne"), []string{"call " + pcall, "store &p0.Peaks ← " + pcall})
-	c.checkShapes("C19.append", M+"AppendOne", fn["MMR.AppendOne"], ret("MMR.AppendOne"), map[string][]string{"ret": {pcall, "p0.Peaks"}})
-	c.checkCondSet("C19.append", M+"P", fn["MMR.P"], []string{"(len(p1) <= p3)", "(nil == p1[p3])"})
-	rec := M + "P(p0, " + M + "Replace(p0, p1, p3, nil), " + M + "concatenateAndHash(p0, p1[p3], p2), (1 + p3))"
-	c.checkEffects("C19.append", M+"P", fn["MMR.P"], eff("MMR.P"), []string{
-		"call " + rec, "call " + M + "Replace(p0, p1, p3, nil)", "call " + M + "Replace(p0, p1, p3, p2)", "call " + M + "concatenateAndHash(p0, p1[p3], p2)",
-	})
-	c.checkShapes("C19.append", M+"P", fn["MMR.P"], ret("MMR.P"), map[string][]string{"ret": {rec, M + "Replace(p0, p1, p3, p2)", "append(p1, [p2][:])"}})
-	c.checkCondSet("C19.append", M+"Replace", fn["MMR.Replace"], []string{"(p2 < len(p1))"})
-	c.checkEffects("C19.append", M+"Replace", fn["MMR.Replace"], eff("MMR.Replace"), []string{"copy(make([]types.MmrPeak, len(p1)), p1)", "store &make([]types.MmrPeak, len(p1))[p2] ← p3"})
-	c.checkShapes("C19.append", M+"Replace", fn["MMR.Replace"], ret("MMR.Replace"), map[string][]string{"ret": {"make([]types.MmrPeak, len(p1))"}})
-	c.checkEffects("C19.append", M+"concatenateAndHash", fn["MMR.concatenateAndHash"], eff("MMR.concatenateAndHash"), []string{})
-	c.checkShapes("C19.append", M+"concatenateAndHash", fn["MMR.concatenateAndHash"], ret("MMR.concatenateAndHash"), map[string][]string{"ret": {"cell(p0.hashFn(append(append(alloc:[64]byte[:0], p1[:]), p2[:])))"}})
+	c.Rule("C19.append", "AppendOne skips only a nil item, works on a private copy of the current peaks, runs P from height 0 and installs/returns P's result; in P (recursive or iterative) every merge hashes (peak at the current height ⌢ carried item) in that order, the merged slot is cleared through Replace(list, height, nil), the carried item settles through Replace(list, height, item) or append(list, item), and the height advances by exactly one per merge; Replace returns a fresh copy with one slot changed; the merge returns a fresh cell of H(left ⌢ right)", 12)
+	o := robustOpts
+	c.requireAtoms("C19.append", M+"AppendOne", fn["MMR.AppendOne"], o, []string{"(nil == p1)"})
+	{
+		f := fn["MMR.AppendOne"]
+		notNil := condEdges(f, func(v ssa.Value) (bool, bool) {
+			switch abbr(exprStr(v, o)) {
+			case "(nil == p1)":
+				return true, false
+			case "(nil != p1)":
+				return true, true
+			}
+			return false, false
+		})
+		c.Check(mustPassAfter(notNil, func(in ssa.Instruction) bool {
+			ci, ok := in.(ssa.CallInstruction)
+			return ok && calleeFunc(ci) == fn["MMR.P"]
+		}), "C19.append", M+"AppendOne · skips only nil", f.Pos(), "every non-nil item reaches P", "an item that is not nil can be skipped (a path from item != nil returns without calling P)")
+	}
+	pcall := M + "P(p0, cat(p0.Peaks), p1, 0)"
+	c.requireSet("C19.append", M+"AppendOne · calls", fn["MMR.AppendOne"].Pos(), "AppendOne's mmr calls", abbrAll(robustCalls(fn["MMR.AppendOne"], o, keep)), []string{pcall})
+	{
+		f := fn["MMR.AppendOne"]
+		// m.Peaks is rebound to P's result and the result is what is returned
+		stored := false
+		allInstrs(f, func(in ssa.Instruction) {
+			if st, ok := in.(*ssa.Store); ok && abbr(exprStr(st.Addr, o)) == "&p0.Peaks" && abbr(exprStr(st.Val, o)) == pcall {
+				stored = true
+			}
+		})
+		c.Check(stored, "C19.append", M+"AppendOne · install", f.Pos(), "m.Peaks = P(copy, item, 0)", "AppendOne does not install P's result as the new peak list")
+		var rets []string
+		for _, s := range abbrMap(returnShapesO(f, o))["ret"] {
+			rets = append(rets, expandAlts(s)...)
+		}
+		okR := len(rets) > 0
+		for _, s := range rets {
+			if s != pcall && s != "p0.Peaks" {
+				okR = false
+			}
+		}
+		c.Check(okR, "C19.append", M+"AppendOne · result", f.Pos(), "returns the installed list", fmt.Sprintf("AppendOne returns %v", rets))
+	}
+	c19P(c, fn["MMR.P"], fn["MMR.Replace"], fn["MMR.concatenateAndHash"])
+	c.requireSet("C19.append", M+"Replace · result", fn["MMR.Replace"].Pos(), "Replace returns", abbrMap(returnShapesO(fn["MMR.Replace"], o))["ret"], []string{"make([]types.MmrPeak, len(p1)){[:] ⇐ p1; [p2] ← p3}"})
+	c.requireSet("C19.append", M+"concatenateAndHash · result", fn["MMR.concatenateAndHash"].Pos(), "the merge returns", abbrMap(returnShapesO(fn["MMR.concatenateAndHash"], o))["ret"], []string{"cell(p0.hashFn(cat(p1[:], p2[:])))"})
 
 	c.Rule("C19.no-shared-mutation", "no function of package mmr stores through a pointer, slice element or map reachable from its parameters or from m.Peaks (the only non-local store is the rebinding m.Peaks = new list); P is called only with a private list (AppendOne's copy or a Replace result), so its append cannot write into a caller's backing array", 8)
 	for _, f := range c.SrcFuncs(mmrPkg) {
@@ -90,12 +120,8 @@ func checkC19(c *Ctx) (string, []string) {
 	}
 	c.extra["calls_of_P"] = ncall
 
-	c.Rule("C19.super-peak", "SuperPeak drops nil peaks, then: none ↦ zero hash, one ↦ that peak, otherwise Keccak($peak ⌢ SuperPeak(all but last) ⌢ last); AppendAndCommitMmr commits to exactly the list AppendOne returned", 5)
-	h := "⊕(make([]types.MmrPeak, 0); [p1[*]][:])"
-	c.checkCondSet("C19.super-peak", M+"SuperPeak", fn["MMR.SuperPeak"], []string{"(* < len(p1))", "(0 == len(" + h + "))", "(1 == len(" + h + "))", "(nil != p1[*])"})
-	inner := M + "SuperPeak(p0, " + h + "[:(len(" + h + ") - 1)])"
-	kec := "hash.KeccakHash(append(append(append(alloc:[68]byte[:0], \"peak\"), " + inner + "[:]), " + h + "[(len(" + h + ") - 1)][:]))"
-	c.checkShapes("C19.super-peak", M+"SuperPeak", fn["MMR.SuperPeak"], ret("MMR.SuperPeak"), map[string][]string{"ret": {"*" + h + "[0]", kec, "nil"}})
+	c.Rule("C19.super-peak", "SuperPeak drops nil peaks, then: none ↦ zero hash, one ↦ that peak, otherwise the left fold Keccak($peak ⌢ acc ⌢ next) over the remaining peaks in order (as the GP recursion on all-but-last, or as an accumulating loop from the first peak); AppendAndCommitMmr commits to exactly the list AppendOne returned", 5)
+	c19SuperPeak(c, fn["MMR.SuperPeak"])
 	m := "phi(mmr.NewMMR(hash.KeccakHash) | mmr.NewMMRFromPeaks(p0.Peaks, hash.KeccakHash))"
 	ap := M + "AppendOne(" + m + ", cell(p1))"
 	c.checkShapes("C19.super-peak", "internal/recent_history.AppendAndCommitMmr", rh, abbrMap(returnShapes(rh)), map[string][]string{
@@ -105,4 +131,359 @@ func checkC19(c *Ctx) (string, []string) {
 	_ = fmt.Sprint
 	return "Mountain-range mechanisms decided statically: the append recursion (copy, carry/merge order, height step, slot clear/fill through Replace), absence of any store through shared peak storage in package mmr (who-may-write), privacy of every list handed to P (who-may-call, whole module), fresh result cell of the merge, the super-peak case analysis and operands, and that the commitment is taken over the list AppendOne returned.",
 		[]string{"canonical SSA renderer; expected tables transcribed from GP E.2 (A, P, R, M_R)", "not decided: peak values / bit-count correspondence as numbers; the restored-with-nil-holes case beyond SuperPeak's nil filter"}
+}
+
+// c19P: flow facts of the append helper, independent of recursion vs loop.
+func c19P(c *Ctx, p, replace, concat *ssa.Function) {
+	M := "(*mmr.MMR)."
+	key := M + "P"
+	if len(p.Params) != 4 {
+		c.Bad("C19.append", key, p.Pos(), "P no longer has the (list, item, height) parameters")
+		return
+	}
+	list0, item0, height0 := p.Params[1], p.Params[2], p.Params[3]
+	var isList, isCarried, isHeight func(v ssa.Value, seen map[ssa.Value]bool) bool
+	isNil := func(v ssa.Value) bool {
+		k, ok := stripConv(v).(*ssa.Const)
+		return ok && k.Value == nil
+	}
+	isList = func(v ssa.Value, seen map[ssa.Value]bool) bool {
+		v = stripConv(v)
+		if v == ssa.Value(list0) || seen[v] {
+			return true
+		}
+		seen[v] = true
+		switch x := v.(type) {
+		case *ssa.Call:
+			return x.Call.StaticCallee() == replace && len(x.Call.Args) == 4 && isList(x.Call.Args[1], seen)
+		case *ssa.Phi:
+			for _, e := range x.Edges {
+				if !isList(e, seen) {
+					return false
+				}
+			}
+			return true
+		}
+		return false
+	}
+	isHeight = func(v ssa.Value, seen map[ssa.Value]bool) bool {
+		v = stripConv(v)
+		if v == ssa.Value(height0) || seen[v] {
+			return true
+		}
+		seen[v] = true
+		switch x := v.(type) {
+		case *ssa.BinOp:
+			if k, ok := constInt(x.Y); ok && k == 1 && x.Op == token.ADD {
+				return isHeight(x.X, seen)
+			}
+			if k, ok := constInt(x.X); ok && k == 1 && x.Op == token.ADD {
+				return isHeight(x.Y, seen)
+			}
+		case *ssa.Phi:
+			for _, e := range x.Edges {
+				if !isHeight(e, seen) {
+					return false
+				}
+			}
+			return true
+		}
+		return false
+	}
+	// merges: calls of the merge helper, or direct hash calls over (x[:] ⌢ y[:])
+	type merge struct {
+		x, y ssa.Value
+		at   ssa.Instruction
+	}
+	var merges []merge
+	mergeResult := map[ssa.Value]bool{}
+	allInstrs(p, func(in ssa.Instruction) {
+		call, ok := in.(*ssa.Call)
+		if !ok {
+			return
+		}
+		if call.Call.StaticCallee() == concat && len(call.Call.Args) >= 3 {
+			merges = append(merges, merge{call.Call.Args[1], call.Call.Args[2], call})
+			mergeResult[call] = true
+			return
+		}
+		if call.Call.StaticCallee() == nil && !call.Call.IsInvoke() && strings.HasSuffix(exprStr(call.Call.Value, shapeOpts), ".hashFn") && len(call.Call.Args) == 1 {
+			parts := catValues(call.Call.Args[0])
+			if len(parts) == 2 {
+				a, ok1 := wholeOf(parts[0])
+				b, ok2 := wholeOf(parts[1])
+				if ok1 && ok2 {
+					merges = append(merges, merge{a, b, call})
+					mergeResult[call] = true
+				}
+			}
+		}
+	})
+	isCarried = func(v ssa.Value, seen map[ssa.Value]bool) bool {
+		v = stripConv(v)
+		if v == ssa.Value(item0) || seen[v] || mergeResult[v] {
+			return true
+		}
+		seen[v] = true
+		switch x := v.(type) {
+		case *ssa.Phi:
+			for _, e := range x.Edges {
+				if !isCarried(e, seen) {
+					return false
+				}
+			}
+			return true
+		case *ssa.Alloc:
+			// cell(hash result)
+			if sv := singleStore(x); sv != nil {
+				return isCarried(sv, seen)
+			}
+		case *ssa.UnOp:
+			if x.Op == token.MUL {
+				return false
+			}
+		}
+		return false
+	}
+	fresh := func() map[ssa.Value]bool { return map[ssa.Value]bool{} }
+	elemOf := func(v ssa.Value) (l, i ssa.Value, ok bool) {
+		u, isU := stripConv(v).(*ssa.UnOp)
+		if !isU || u.Op != token.MUL {
+			return nil, nil, false
+		}
+		ia, isIA := u.X.(*ssa.IndexAddr)
+		if !isIA {
+			return nil, nil, false
+		}
+		return ia.X, ia.Index, true
+	}
+	if len(merges) == 0 {
+		c.Bad("C19.append", key+" · merge", p.Pos(), "P performs no merge of an occupied peak with the carried item")
+		return
+	}
+	var clears, fills []*ssa.Call
+	allInstrs(p, func(in ssa.Instruction) {
+		if call, ok := in.(*ssa.Call); ok && call.Call.StaticCallee() == replace && len(call.Call.Args) == 4 {
+			if isNil(call.Call.Args[3]) {
+				clears = append(clears, call)
+			} else {
+				fills = append(fills, call)
+			}
+		}
+	})
+	for k, m := range merges {
+		mk := fmt.Sprintf("%s · merge #%d", key, k+1)
+		l, i, ok := elemOf(m.x)
+		okX := ok && isList(l, fresh()) && isHeight(i, fresh())
+		okY := isCarried(m.y, fresh())
+		c.Check(okX && okY, "C19.append", mk+" order", m.at.Pos(), "hashes (peak at the current height ⌢ carried item)", fmt.Sprintf("the merge hashes (%s ⌢ %s): GP E.8 merges the existing peak first, then the carried item", abbr(exprStr(m.x, shapeOpts)), abbr(exprStr(m.y, shapeOpts))))
+		cleared := false
+		for _, cl := range clears {
+			if ok && stripConv(cl.Call.Args[2]) == stripConv(i) && stripConv(cl.Call.Args[1]) == stripConv(l) {
+				cleared = true
+			}
+		}
+		c.Check(cleared, "C19.append", mk+" clears slot", m.at.Pos(), "the merged slot is cleared through Replace(list, height, nil)", "the slot whose peak was merged is not cleared (Replace(list, height, nil) on the same list and height is missing)")
+		// height step
+		step := false
+		if ok {
+			allInstrs(p, func(in ssa.Instruction) {
+				if call, isC := in.(*ssa.Call); isC && call.Call.StaticCallee() == p && len(call.Call.Args) == 4 {
+					if b, isB := stripConv(call.Call.Args[3]).(*ssa.BinOp); isB && b.Op == token.ADD {
+						if k1, ok1 := constInt(b.Y); ok1 && k1 == 1 && stripConv(b.X) == stripConv(i) {
+							step = true
+						}
+						if k1, ok1 := constInt(b.X); ok1 && k1 == 1 && stripConv(b.Y) == stripConv(i) {
+							step = true
+						}
+					}
+				}
+			})
+			if ph, isPhi := stripConv(i).(*ssa.Phi); isPhi && !step {
+				for _, e := range ph.Edges {
+					if b, isB := stripConv(e).(*ssa.BinOp); isB && b.Op == token.ADD {
+						if k1, ok1 := constInt(b.Y); ok1 && k1 == 1 && stripConv(b.X) == ssa.Value(ph) {
+							step = true
+						}
+						if k1, ok1 := constInt(b.X); ok1 && k1 == 1 && stripConv(b.Y) == ssa.Value(ph) {
+							step = true
+						}
+					}
+				}
+			}
+		}
+		c.Check(step, "C19.append", mk+" height step", m.at.Pos(), "the carried item moves up exactly one height", "after a merge the carried item does not continue at height + 1")
+	}
+	// results
+	var isResult func(v ssa.Value, seen map[ssa.Value]bool) bool
+	isResult = func(v ssa.Value, seen map[ssa.Value]bool) bool {
+		v = stripConv(v)
+		if seen[v] {
+			return true
+		}
+		seen[v] = true
+		switch x := v.(type) {
+		case *ssa.Phi:
+			for _, e := range x.Edges {
+				if !isResult(e, seen) {
+					return false
+				}
+			}
+			return true
+		case *ssa.Call:
+			if b, ok := x.Call.Value.(*ssa.Builtin); ok && b.Name() == "append" && len(x.Call.Args) == 2 {
+				es := appendedElems(x.Call.Args[1])
+				return isList(x.Call.Args[0], fresh()) && len(es) == 1 && isCarried(es[0], fresh())
+			}
+			switch x.Call.StaticCallee() {
+			case replace:
+				return isList(x.Call.Args[1], fresh()) && isHeight(x.Call.Args[2], fresh()) && isCarried(x.Call.Args[3], fresh())
+			case p:
+				return isList(x.Call.Args[1], fresh()) && isCarried(x.Call.Args[2], fresh()) && isHeight(x.Call.Args[3], fresh())
+			}
+		}
+		return false
+	}
+	okRes := true
+	kinds := map[string]bool{}
+	allInstrs(p, func(in ssa.Instruction) {
+		r, ok := in.(*ssa.Return)
+		if !ok || len(r.Results) != 1 {
+			return
+		}
+		if !isResult(r.Results[0], fresh()) {
+			okRes = false
+		}
+		var note func(v ssa.Value, d int)
+		note = func(v ssa.Value, d int) {
+			if d > 6 {
+				return
+			}
+			switch x := stripConv(v).(type) {
+			case *ssa.Phi:
+				for _, e := range x.Edges {
+					note(e, d+1)
+				}
+			case *ssa.Call:
+				if b, ok := x.Call.Value.(*ssa.Builtin); ok {
+					kinds[b.Name()] = true
+				} else if x.Call.StaticCallee() == replace {
+					kinds["fill"] = true
+				}
+			}
+		}
+		note(r.Results[0], 0)
+	})
+	c.Check(okRes && kinds["append"] && (kinds["fill"] || len(fills) > 0), "C19.append", key+" · results", p.Pos(), "the carried item settles by Replace(list, height, item) in a free slot or by append(list, item) above the top", "P's result is not always (list with the carried item placed at the current height): a free slot must be filled through Replace and a new height appended")
+	// tests
+	hasLen, hasNil := false, false
+	allInstrs(p, func(in ssa.Instruction) {
+		ifi, ok := in.(*ssa.If)
+		if !ok {
+			return
+		}
+		bo, ok := ifi.Cond.(*ssa.BinOp)
+		if !ok {
+			return
+		}
+		for _, pr := range [][2]ssa.Value{{bo.X, bo.Y}, {bo.Y, bo.X}} {
+			if isHeight(pr[0], fresh()) {
+				if call, ok := stripConv(pr[1]).(*ssa.Call); ok {
+					if b, ok := call.Call.Value.(*ssa.Builtin); ok && b.Name() == "len" && isList(call.Call.Args[0], fresh()) {
+						hasLen = true
+					}
+				}
+			}
+			if l, i, ok := elemOf(pr[0]); ok && isNil(pr[1]) && isList(l, fresh()) && isHeight(i, fresh()) {
+				hasNil = true
+			}
+		}
+	})
+	c.Check(hasLen && hasNil, "C19.append", key+" · tests", p.Pos(), "tests height against the list length and the slot against nil", "P does not test both (height < |list|) and (list[height] == nil)")
+}
+
+// c19SuperPeak: nil filter, Keccak($peak ⌢ acc ⌢ next), left-fold order.
+func c19SuperPeak(c *Ctx, f *ssa.Function) {
+	M := "(*mmr.MMR)."
+	key := M + "SuperPeak"
+	o := robustOpts
+	h := "⊕(make([]types.MmrPeak, 0); [p1[*]][:])"
+	c.requireAtoms("C19.super-peak", key, f, o, []string{"(nil == p1[*])", "(0 == len(" + h + "))"})
+	// every Keccak call hashes ("peak", A[:], N[:])
+	var kcalls []*ssa.Call
+	allInstrs(f, func(in ssa.Instruction) {
+		if call, ok := in.(*ssa.Call); ok && call.Call.StaticCallee() != nil && strings.HasSuffix(call.Call.StaticCallee().String(), "hash.KeccakHash") {
+			kcalls = append(kcalls, call)
+		}
+	})
+	if len(kcalls) != 1 {
+		c.Bad("C19.super-peak", key+" · hash", f.Pos(), "SuperPeak has %d Keccak calls; the fold has exactly one", len(kcalls))
+		return
+	}
+	k := kcalls[0]
+	parts := catValues(k.Call.Args[0])
+	var ps []string
+	for _, pv := range parts {
+		ps = append(ps, abbr(exprStr(pv, o)))
+	}
+	if len(parts) != 3 || ps[0] != `"peak"` {
+		c.Bad("C19.super-peak", key+" · hash", k.Pos(), "Keccak input is %v; GP E.10 hashes $peak ⌢ M_R(all but last) ⌢ last", ps)
+		return
+	}
+	acc, okA := wholeOf(parts[1])
+	next, okN := wholeOf(parts[2])
+	if !okA || !okN {
+		c.Bad("C19.super-peak", key+" · hash", k.Pos(), "Keccak input is %v; both operands after $peak must be whole 32-byte hashes", ps)
+		return
+	}
+	accS, nextS := abbr(exprStr(acc, o)), abbr(exprStr(next, o))
+	inner := M + "SuperPeak(p0, " + h + "[:(len(" + h + ") - 1)])"
+	switch {
+	case strings.Contains(accS, "SuperPeak("):
+		// GP recursion: acc = SuperPeak(all but last), next = last; singleton returns the peak itself
+		ok := accS == "cell("+inner+")" || accS == inner
+		ok = ok && nextS == h+"[(len("+h+") - 1)]"
+		c.Check(ok, "C19.super-peak", key+" · fold", k.Pos(), "Keccak($peak ⌢ SuperPeak(all but last) ⌢ last)", fmt.Sprintf("the recursion hashes ($peak ⌢ %s ⌢ %s)", accS, nextS))
+		var rets []string
+		for _, s := range abbrMap(returnShapesO(f, o))["ret"] {
+			rets = append(rets, expandAlts(s)...)
+		}
+		kec := "hash.KeccakHash(cat(\"peak\", " + inner + "[:], " + h + "[(len(" + h + ") - 1)][:]))"
+		c.requireSet("C19.super-peak", key+" · results", f.Pos(), "SuperPeak returns", uniqSorted(rets), []string{"*" + h + "[0]", kec, "nil"})
+		c.requireAtoms("C19.super-peak", key+" · singleton", f, o, []string{"(1 == len(" + h + "))"})
+	default:
+		// accumulating loop: acc is a local initialised with *h[0] and updated with each Keccak result; next ranges over h[1:] in order
+		okAcc := false
+		if a, isA := acc.(*ssa.Alloc); isA {
+			var stores []string
+			for _, r := range *a.Referrers() {
+				if st, ok := r.(*ssa.Store); ok && st.Addr == ssa.Value(a) {
+					if st.Val == ssa.Value(k) {
+						stores = append(stores, "K")
+					} else {
+						stores = append(stores, abbr(exprStr(st.Val, o)))
+					}
+				}
+			}
+			sort.Strings(stores)
+			okAcc = strings.Join(stores, ";") == "*"+h+"[0];K"
+			// the result is the accumulator
+			retOK := true
+			allInstrs(f, func(in ssa.Instruction) {
+				if r, ok := in.(*ssa.Return); ok && len(r.Results) == 1 {
+					s := abbr(exprStr(r.Results[0], o))
+					if u, isU := r.Results[0].(*ssa.UnOp); isU && u.X == ssa.Value(a) {
+						return
+					}
+					if s != "nil" {
+						retOK = false
+					}
+				}
+			})
+			okAcc = okAcc && retOK
+		}
+		c.Check(okAcc && nextS == h+"[1:][*]", "C19.super-peak", key+" · fold", k.Pos(), "acc starts at the first peak, each further peak in order gives acc = Keccak($peak ⌢ acc ⌢ peak), the result is acc", fmt.Sprintf("the loop hashes ($peak ⌢ %s ⌢ %s) and does not form the left fold from the first peak over the rest in order", accS, nextS))
+		c.OK("C19.super-peak", key+" · results", f.Pos(), "zero hash for no peaks, otherwise the accumulator")
+		c.OK("C19.super-peak", key+" · singleton", f.Pos(), "a single peak is the initial accumulator")
+	}
 }
